@@ -369,6 +369,10 @@ class Calls(object):
         if ans is None:
             raise Outside("isinstance(%s) needs a declared static answer" % ast.unparse(node))
         if ans == "sym":
+            if isinstance(a.t, TOpt):
+                # isinstance(None, C) is False for every class C handled here
+                f = self.cx.func("isinstance_" + cls.replace(".", "_"), a.t.inner.sort(self.cx), B)
+                return SV(z3.And(z3.Not(a.t.is_none(self.cx, a.e)), f(a.t.get(self.cx, a.e))), TBool())
             f = self.cx.func("isinstance_" + cls.replace(".", "_"), a.t.sort(self.cx), B)
             return SV(f(a.e), TBool())
         return SV(z3.BoolVal(bool(ans)), TBool())
